@@ -11,7 +11,7 @@ from vcommon import *
 PROP = "C12"
 HERE = os.path.dirname(os.path.abspath(__file__))
 TZS = ["UTC", "Asia/Tokyo", "America/Los_Angeles", "Pacific/Kiritimati", "XYZ-14", "ABC+11:30", "Europe/London"]
-KNOBS = ["clock", "tz", "mtime", "heap", "pid", "tmpname", "stack", "envvars", "cwd", "fds", "perm", "ids", "stdin", "links", "proc", "envfuzz", "preexist"]
+KNOBS = ["clock", "tz", "mtime", "heap", "pid", "tmpname", "stack", "envvars", "cwd", "fds", "perm", "ids", "stdin", "links", "proc", "envfuzz", "preexist", "closefd"]
 TIMEOUT = 10
 TIME_MACROS = re.compile(r"__DATE__|__TIME__|__TIMESTAMP__")
 
@@ -74,6 +74,7 @@ def gen_env(r):
             "stack": r.pick([r.range(0, 4000), r.range(0, 120000), r.range(60000, 250000)]),   # bytes of environment: moves the stack by up to 250 KB
             "stdin": [r.pick(["pipe", "file", "file"]), r.pick([0, 0, 1, 17, 4096, 70000])],
             "proc": [r.below(2), r.pick([0o022, 0o077, 0, 0o777])],   # SIGPIPE inherited as ignored; umask
+            "closefd": r.pick([None, None, None, None, 2, 2, 0]),   # a standard descriptor that is closed when the compiler starts (cron- and daemon-style launchers)
             "envfuzz": r.range(1, 1 << 30),    # answers to getenv() calls of the compiler itself (none in the unchanged tree)
             # bytes of old content in the output and dependency files before the run; -1: what an earlier, slightly different build left there
             "preexist": r.pick([0, 0, 1, 7, 5000, 400000, -1, -1]),
@@ -600,11 +601,17 @@ def materialise(case, src, wdir):
     return q, text
 
 
-def _child_setup(e, bigstack):
+def _child_setup(e, bigstack, stdin_used=False):
     def f():
         if bigstack:
             import resource
             resource.setrlimit(resource.RLIMIT_STACK, (4 << 30, resource.RLIM_INFINITY))
+        cf = e.get("closefd")
+        if cf is not None and not (cf == 0 and stdin_used):
+            try:
+                os.close(cf)
+            except OSError:
+                pass
         pr = e.get("proc") or [0, 0o022]
         if pr[0]:
             import signal
@@ -704,7 +711,7 @@ def run_replica(sdir, reps, stage, e, infile, opts, src, wdir, stats, timeout=No
             stdin_arg = os.open(sf, os.O_RDONLY)
             os.lseek(stdin_arg, off, os.SEEK_SET)
     po = subprocess.Popen(argv, cwd=wdir, env=env_vars(e, sdir, stats), stdin=stdin_arg, stdout=subprocess.PIPE, stderr=subprocess.PIPE,
-                          start_new_session=True, pass_fds=extra_fds, preexec_fn=_child_setup(e, bigstack))
+                          start_new_session=True, pass_fds=extra_fds, preexec_fn=_child_setup(e, bigstack, from_stdin))
     if isinstance(stdin_arg, int) and stdin_arg >= 0 and from_stdin:
         os.close(stdin_arg)
     for fd in extra_fds:
@@ -773,7 +780,12 @@ def evaluate(case, sdir, reps, src, wdir, stats=None):
             return None, ra, rb, held, text
         if ra["status"] == "timeout" or rb["status"] == "timeout":
             return ["status"], ra, rb, held, text
-    d = diff_fields(ra, rb)
+    def fields(x, y):
+        d = diff_fields(x, y)
+        if case["e1"].get("closefd") != case["e2"].get("closefd") and 2 in (case["e1"].get("closefd"), case["e2"].get("closefd")):
+            d = [k for k in d if k != "stderr"]     # with descriptor 2 closed the diagnostics are lost, legitimately; everything else must not care
+        return d
+    d = fields(ra, rb)
     if d and any(x["status"] == 1 and not x["stderr"] and x["out"] is None for x in (ra, rb)):
         # one side died without a word (the driver reports a crashed cc1 by its exit status only). The front end recurses
         # over its input, and the self-compiled compiler has bigger frames than the gcc-compiled one, so a pathological
@@ -783,7 +795,7 @@ def evaluate(case, sdir, reps, src, wdir, stats=None):
         ra2 = run_replica(sdir, reps, case["a"], case["e1"], infile, case["opts"], src, wdir, None, timeout=6 * TIMEOUT, aux=case.get("aux"), bigstack=True)
         rb2 = run_replica(sdir, reps, case["b"], case["e2"], infile, case["opts"], src, wdir, None, timeout=6 * TIMEOUT, aux=case.get("aux"), bigstack=True)
         if "timeout" not in (ra2["status"], rb2["status"]):
-            d2 = diff_fields(ra2, rb2)
+            d2 = fields(ra2, rb2)
             if not d2:
                 if stats_counter is not None:
                     stats_counter["stack_limit_redecided"] = stats_counter.get("stack_limit_redecided", 0) + 1
